@@ -927,9 +927,10 @@ pub fn invalid_reason(world: &World) -> Option<String> {
             if is_tag(l) {
                 return Some("inserted line is a tag line".into());
             }
-            if r.lines.get(l) == r.lines.get(l - 1) {
-                // git would report the insertion one line further down (same verdict, other text)
-                return Some("inserted line equals the line after it".into());
+            if r.lines.get(l) == r.lines.get(l - 1) || (l >= 2 && r.lines.get(l - 2) == r.lines.get(l - 1)) {
+                // git may report the insertion one line further down/up (same verdict, other
+                // text), so the level-A diff writer could not be validated against git
+                return Some("inserted line equals a neighbouring line".into());
             }
             if !r.blocks.iter().any(|b| b.start_line < l && l < b.end_line) {
                 return Some("inserted line outside every block".into());
